@@ -4,10 +4,10 @@ PROPS = {
         "modules": ["Hertz.Props.C17"],
         "rule": "Exhaustive strings of <=3 (quick) / <=5 (thorough) tokens over a 16-token hostile alphabet "
                 "(a % + & = ; # SP %41 %2 %zz NUL 0xff %2B / ?) through quote/decode/parse/fix/net-url ops; "
-                "all one- and (sampled) two-entry argument lists over short hostile strings; random longer inputs. URIs: every string of <=3 tokens over {a / ? # : @ // %41 % SP NUL http . ..} parsed with and without Host; URIs assembled through the setters (hostile schemes, hosts, paths, fragments, query lists) through FullURI -> Parse -> FullURI; cookie strings from an attribute vocabulary with mutations; cookies built through the setters. Extension (c17x.go): RFC 1123 dates - boundary timestamps (epoch, every month start, leap days, century years 1900/2100/2400, years -1/0/1/9999/10000, the zero Time, CookieExpireDelete, 32-bit limits; each +-1 s) formatted in three locations and parsed back, every third day of 1899-1901, 1999-2001, 2099-2101, 2399-2401, 9998-10000, -1..1, random timestamps inside and far outside the four-digit-year range, every written text with each of its 29 positions overwritten by 10 bytes, grammar-generated date strings (each of 12 fields from a valid/near-miss vocabulary) and mutated valid texts through bytesconv.ParseHTTPDate, time.ParseInLocation(RFC1123, UTC) and the dashed cookie layout; cookies with all ten attributes incl. expiry (zero Time, CookieExpireDelete, sub-second, non-UTC locations, out-of-range years, next to max-age) built on fresh and used objects, cookie strings with expires attributes; every Args program of <=3 operations over an 11-operation alphabet and random programs of Add/Set/Del/DelBytes/ParseBytes/Reset; request cookies: every Cookie value of <=4 (6) tokens over {a = ; SP \" b '; ' NUL}, every key x value of a hostile vocabulary through SetCookie -> Peek(Cookie) -> a second header, random SetCookie/DelCookie/DelAllCookies/Cookie-line programs; URI programs: 20 base texts x 39 Update references (x a second Update), the stale-query programs, random programs of Parse/setters/user-info/QueryArgs mutations/Update/Reset, each ending in FullURI -> Parse -> FullURI on a used object.",
+                "all one- and (sampled) two-entry argument lists over short hostile strings; random longer inputs. URIs: every string of <=3 tokens over {a / ? # : @ // %41 % SP NUL http . ..} parsed with and without Host; URIs assembled through the setters (hostile schemes, hosts, paths, fragments, query lists) through FullURI -> Parse -> FullURI; cookie strings from an attribute vocabulary with mutations; cookies built through the setters. Extension (c17x.go): RFC 1123 dates - boundary timestamps (epoch, every month start, leap days, century years 1900/2100/2400, years -1/0/1/9999/10000, the zero Time, CookieExpireDelete, 32-bit limits; each +-1 s) formatted in three locations and parsed back, every third day of 1899-1901, 1999-2001, 2099-2101, 2399-2401, 9998-10000, -1..1, random timestamps inside and far outside the four-digit-year range, every written text with each of its 29 positions overwritten by 10 bytes, grammar-generated date strings (each of 12 fields from a valid/near-miss vocabulary) and mutated valid texts through bytesconv.ParseHTTPDate, time.ParseInLocation(RFC1123, UTC) and the dashed cookie layout; cookies with all ten attributes incl. expiry (zero Time, CookieExpireDelete, sub-second, non-UTC locations, out-of-range years, next to max-age) built on fresh and used objects, cookie strings with expires attributes; every Args program of <=3 operations over an 11-operation alphabet and random programs of Add/Set/Del/DelBytes/ParseBytes/Reset; request cookies: every Cookie value of <=4 (6) tokens over {a = ; SP \" b '; ' NUL}, every key x value of a hostile vocabulary through SetCookie -> Peek(Cookie) -> a second header, random SetCookie/DelCookie/DelAllCookies/Cookie-line programs; URI programs: 20 base texts x 39 Update references (x a second Update), the former stale-query programs (QueryArgs use then SetQueryString / Update(?...), delete-all after a parse) and their neighbours, random programs of Parse/setters/user-info/QueryArgs mutations/Update/Reset, each ending in FullURI -> Parse -> FullURI on a used object.",
         "exhaustive_note": "token strings up to the stated length are enumerated completely; the rest is sampled",
         "level_text": "Round-trip theorems (decode . quote = id, parse . serialise = id on argument lists) proved in Lean for all byte strings over the escape tables regenerated from the Go source; model held to the code by differential runs incl. exhaustive short hostile strings; agreement with net/url checked on every accepted string. Proved for all inputs as well: the RFC 1123 date round trip on the whole four-digit-year range (with the day-number/civil-date bijection), the cookie round trip with all ten attributes incl. expires (canonical form: whole seconds, no expiry next to max-age), the round trip after any program of Args mutators, of request cookies under an exact well-formedness predicate, and of any program of URI setters / Parse / Update / QueryArgs mutations (Update never panics; user-info is never written).",
-        "level_note": "Trusted: Lean kernel, translator for the 256-byte tables, harness/driver. URI and cookie round trips are modelled (parse, FullURI, cookie scanner and serialiser), compared with the code and checked per case on the implementation's output; their Lean theorems are open. Go's time package (AppendFormat / Parse on the RFC 1123 layouts) is modelled in Model/HttpDate.lean and compared with the real package on every date case; time.Local is pinned to UTC in the harness (time.Parse resolves zone abbreviations against it). Known findings: control byte in the fragment; stale query in FullURI after SetQueryString / deleting the last argument.",
+        "level_note": "Trusted: Lean kernel, translator for the 256-byte tables, harness/driver. URI and cookie round trips are modelled (parse, FullURI, cookie scanner and serialiser), compared with the code and checked per case on the implementation's output; their Lean theorems are open. Go's time package (AppendFormat / Parse on the RFC 1123 layouts) is modelled in Model/HttpDate.lean and compared with the real package on every date case; time.Local is pinned to UTC in the harness (time.Parse resolves zone abbreviations against it). Known finding: control byte in the fragment. The stale query in FullURI after SetQueryString / deleting the last argument is repaired (/repo 97b0e80): the model chooses by parsedQueryArgs, the query conjunct of the URI-program round trip is demanded in every state, a recurrence is a violation.",
         "assumptions": ["net/url is the reference for args_agree_std", "Go's time package computes what Model/HttpDate.lean says on the three layouts hertz uses (compared per case)", "time.Local has no zone abbreviation other than UTC (pinned by the harness)"],
         "timeout": {"quick": 600, "thorough": 3000},
     },
@@ -633,7 +633,7 @@ _upd("C17", "Agreement with net/url is proved (args_agree_std): a Lean model of 
      "cookie expiry (Go's time formatting) is compared, not proved; that the Lean model of url.ParseQuery is net/url rests on the per-case comparison.")
 _upd("C17", "Extension: cookie_roundtrip now includes the expires attribute (all ten attributes; Go's RFC 1123 date codec is modelled and the date "
      "round trip proved on years 0000-9999), and the setter side is proved as programs: args_program_roundtrip, request_cookie_roundtrip, "
-     "uri_program_roundtrip (Parse, setters, user-info, QueryArgs mutations, Update), update_never_panics; uri_stale_query_fails_at is the second known finding.",
+     "uri_program_roundtrip (Parse, setters, user-info, QueryArgs mutations, Update), update_never_panics; the query conjunct of uri_program_roundtrip holds in every state since RequestURI chooses by parsedQueryArgs (/repo 97b0e80) - the former second known finding is the regression theorem uri_stale_query_repaired.",
      "cookie expiry (Go's time formatting) is compared, not proved; that the Lean model of url.ParseQuery is net/url rests on the per-case comparison.",
      "that the Lean models of net/url (Spec/UrlQuery) and of Go's time package (Model/HttpDate) compute what the real packages compute is compared per case, not proved.")
 _upd("C18", "run_satisfies_spec: all nine clauses of the trace specification hold of every model run under explicit hypotheses; the spec "
@@ -642,3 +642,20 @@ _upd("C18", "run_satisfies_spec: all nine clauses of the trace specification hol
      "Open: the spurious-close, hooks-run, bounded and prompt clauses of the trace spec for model runs; liveness under fairness.",
      "Open: 'the driver accepts a trace' does not yet imply 'some model run has exactly this projection incl. time stamps'; the clock "
      "discipline idealises the scheduler (the 1 s slack stands for it); liveness under fairness.")
+
+# --- XG: tie by translation + proof ------------------------------------------------------------------------------
+# gen/funcs.go translates these Go leaf functions mechanically into lean/Hertz/Gen/Funcs.lean on every run (scheme:
+# gen/FUNCS.md, target language lean/Hertz/GoSem.lean); Hertz.Props.Tie proves each translation equal to the hand model
+# on ALL inputs.  The module is built and audited with every property that relies on one of the functions.
+TIED = {
+    "C01": "CaseInsensitiveCompare, NormalizeHeaderKey, NextLine, IsBadTrailer, LowercaseBytes, ParseUintBuf/ParseUint (against both hand models)",
+    "C03": "CaseInsensitiveCompare, NormalizeHeaderKey, NextLine, IsBadTrailer, ParseUintBuf/ParseUint (against both hand models)",
+    "C05": "appendHeaderLine, newlineToSpace, CaseInsensitiveCompare",
+    "C08": "ParseUintBuf (with its overflow test and 64-bit arithmetic), ParseUint, ParseByteRange (never panics; for 0 <= contentLength)",
+    "C17": "AppendQuotedArg, AppendQuotedPath, decodeArgAppend, decodeArgAppendNoPlus",
+}
+for _p, _f in TIED.items():
+    PROPS[_p]["modules"] = PROPS[_p]["modules"] + ["Hertz.Props.Tie"]
+    PROPS[_p]["level_text"] += (" Tied by translation+proof (no sampling): the Go source of " + _f + " is translated mechanically "
+                                "(gen/funcs.go) on every run and proved equal to the model for all inputs (Hertz.Props.Tie).")
+    PROPS[_p]["trusted"] = PROPS[_p].get("trusted", []) + ["Go->Lean function translator gen/funcs.go + lean/Hertz/GoSem.lean (semantics of the translated subset)"]
